@@ -64,7 +64,19 @@ func ruleAppendEntries() *Rule {
 			isConflict := p.Func("(*LogEntry).IsConflict")
 			// discovery: conflict predicate calls
 			var conflictS []string
+			beyondEntry := "" // E in "r.log.LastIndex() < E.Index"
+			var appendPhi *ssa.Phi
 			p.discover(root, func(a *Analysis, f *Frame, in ssa.Instruction) {
+				if x, y, ok := p.condPair(f, in); ok && f.Parent == nil {
+					for _, pr := range [][2]string{{x, y}, {y, x}} {
+						if pr[0] == "r.log.LastIndex()" && strings.HasPrefix(pr[1], "p0.Entries[") && strings.HasSuffix(pr[1], ".Index") {
+							beyondEntry = pr[1]
+						}
+					}
+				}
+				if iface, m, c := invokeOf(in); iface == "Log" && m == "AppendEntries" && f.Parent == nil {
+					appendPhi, _ = stripConv(c.Args[0]).(*ssa.Phi)
+				}
 				if c, ok := in.(*ssa.Call); ok && isConflict != nil && c.Common().StaticCallee() == isConflict {
 					s := p.Canon(f, c).S
 					for _, x := range conflictS {
@@ -102,9 +114,45 @@ func ruleAppendEntries() *Rule {
 				}
 				atoms = append(atoms, BoolAtom(fmt.Sprintf("conflict%d", k+1), c))
 			}
+			iBeyond := -1
+			if beyondEntry != "" {
+				iBeyond = len(atoms)
+				atoms = append(atoms, CmpAtom("lastIndex?entry.Index", "r.log.LastIndex()", beyondEntry))
+			}
+			iTrunc := len(atoms)
+			atoms = append(atoms, GhostAtom("truncatedAt", "no", "entry.Index"))
 			sp := NewSpace(atoms...)
 			a := NewAnalysis(p, sp)
+			// AE-APPEND (start of the suffix): on every edge that brings a suffix request.Entries[i:] to the append,
+			// entry i lies beyond the end of the log, or the log was just truncated at its index
+			var badSuffix []string
+			a.EdgeHook = func(a *Analysis, f *Frame, from, to *ssa.BasicBlock, st State) {
+				if appendPhi == nil || f.Parent != nil || to != appendPhi.Block() {
+					return
+				}
+				for i, pb := range to.Preds {
+					if pb != from {
+						continue
+					}
+					if _, ok := stripConv(appendPhi.Edges[i]).(*ssa.Slice); !ok {
+						continue
+					}
+					bad := sp.Where(st, func(pt int) bool {
+						if sp.Val(pt, iTrunc) == 1 {
+							return false
+						}
+						return iBeyond < 0 || sp.Val(pt, iBeyond) != LT
+					})
+					if !bad.IsEmpty() {
+						badSuffix = append(badSuffix, "suffix chosen at "+p.InstrPos(from.Instrs[len(from.Instrs)-1])+" with {"+strings.Join(sp.Project(bad, iTrunc), " | ")+"} and the entry not known to lie beyond the log end")
+					}
+				}
+			}
 			a.Hook = func(a *Analysis, f *Frame, in ssa.Instruction, st State) State {
+				if _, ok := in.(*ssa.Phi); ok && f.Parent == nil && in.Block() != nil && appendPhi != nil && in.Block() != appendPhi.Block() {
+					// a new iteration of the entries loop: the truncation fact belongs to the previous entry
+					st = sp.Assign(st, iTrunc, 0)
+				}
 				if s, name := raftFieldStore(in); s != nil {
 					n := instrOrdinal(in, func(x ssa.Instruction) bool { _, nm := raftFieldStore(x); return nm == name })
 					a.Observe("AE-TERM store Raft."+name+ordSuffix(n)+" in "+chainKey(f), f, in, st)
@@ -131,6 +179,9 @@ func ruleAppendEntries() *Rule {
 					case "Truncate":
 						o := a.Observe("AE-TRUNC call Log.Truncate"+ordSuffix(n)+" in "+chainKey(f), f, in, st)
 						o.Extra["arg"] = p.Canon(f, c.Args[0]).S
+						if beyondEntry == "" || o.Extra["arg"] == beyondEntry {
+							return sp.Assign(st, iTrunc, 1)
+						}
 					case "AppendEntries":
 						o := a.Observe("AE-APPEND call Log.AppendEntries"+ordSuffix(n)+" in "+chainKey(f), f, in, st)
 						o.Extra["prov"] = suffixProvenance(p, f, c.Args[0])
@@ -146,7 +197,7 @@ func ruleAppendEntries() *Rule {
 				}
 				return st
 			}
-			entry := sp.Filter(sp.Filter(sp.Top(), iH, 1), iA, 1)
+			entry := sp.Filter(sp.Filter(sp.Filter(sp.Top(), iH, 1), iA, 1), iTrunc, 1)
 			a.RunFrame(NewRootFrame(root), entry)
 
 			var out []Obligation
@@ -236,7 +287,18 @@ func ruleAppendEntries() *Rule {
 			} else {
 				ack.Verdict, ack.Detail = Discharged, "every accepting return is preceded by Log.AppendEntries (error fatal)"
 			}
-			out = append(out, bo, ack)
+			sfx := Obligation{Rule: id, Construct: "AE-APPEND the appended suffix starts at the end of the log in (*Raft).AppendEntries", Pos: retPos}
+			switch {
+			case appendPhi == nil:
+				sfx.Verdict, sfx.Detail = Undecided, "the argument of Log.AppendEntries is not a choice between nil and suffixes (phi)"
+			case len(badSuffix) > 0:
+				sfx.Verdict = Violated
+				sfx.Detail = "a suffix request.Entries[i:] can be appended although entry i is neither beyond the end of the log nor at an index the log was just truncated at: entries already present are appended a second time (duplicate indices, log no longer a prefix of the leader's)"
+				sfx.Facts = uniq(badSuffix)
+			default:
+				sfx.Verdict, sfx.Detail = Discharged, "every suffix starts beyond the log end (LastIndex() < entry.Index) or at the index just truncated"
+			}
+			out = append(out, bo, ack, sfx)
 			out = append(out, conflictExact(p, id)...)
 			return out
 		},
@@ -258,7 +320,18 @@ func suffixProvenance(p *Program, f *Frame, v ssa.Value) string {
 		seen[x] = true
 		switch y := x.(type) {
 		case *ssa.Phi:
-			for _, e := range y.Edges {
+			for i, e := range y.Edges {
+				// nil may only arrive from the exhaustion of the loop over request.Entries (every entry was
+				// already in the log); a break out of the loop without a suffix acknowledges entries that are
+				// never appended
+				if c, ok := stripConv(e).(*ssa.Const); ok && c.Value == nil && len(y.Edges) > 1 {
+					pred := y.Block().Preds[i]
+					if !endsWithEntriesLoopTest(p, f, pred) {
+						bad = true
+						leaves = append(leaves, "nil on a path that leaves the entries loop early ("+p.InstrPos(pred.Instrs[len(pred.Instrs)-1])+")")
+						continue
+					}
+				}
 				walk(e)
 			}
 		case *ssa.Const:
@@ -296,6 +369,20 @@ func suffixProvenance(p *Program, f *Frame, v ssa.Value) string {
 		return "!" + s
 	}
 	return s
+}
+
+// endsWithEntriesLoopTest reports whether b ends with the loop test of a range over request.Entries
+// (index < len(request.Entries)), i.e. an edge out of b is the exhaustion of that loop.
+func endsWithEntriesLoopTest(p *Program, f *Frame, b *ssa.BasicBlock) bool {
+	iff, ok := b.Instrs[len(b.Instrs)-1].(*ssa.If)
+	if !ok {
+		return false
+	}
+	bo, ok := iff.Cond.(*ssa.BinOp)
+	if !ok {
+		return false
+	}
+	return p.Canon(f, bo.X).S == "len(p0.Entries)" || p.Canon(f, bo.Y).S == "len(p0.Entries)"
 }
 
 // conflictExact checks that (*LogEntry).IsConflict(other) is true exactly when the indices are
